@@ -11,6 +11,11 @@ structure Maps where
   tMixed : AddrMap := AddrMap.empty
   tRelay : AddrMap := AddrMap.empty
   tCustom : AddrMap := AddrMap.empty
+  -- the live socket's tables (driven by `B` receive batches); candidates are unknown to the
+  -- model, a counter supplies distinct hosts (the output only shows the translation back)
+  sRelay : AddrMap := AddrMap.empty
+  sCustom : AddrMap := AddrMap.empty
+  sNext : Nat := 0
 
 def kindOf? : String → Option Kind
   | "m" => some .mixed | "r" => some .relay | "c" => some .custom | _ => none
@@ -76,6 +81,31 @@ def stepOp (ms : Maps) (op : String) : Maps × String :=
         | some (.custom k) => (ms, s!"custom:{k}")
       | none => (ms, "bad-op")
     | _ => (ms, "bad-op")
+  | ["B", srcs] =>
+    let step := fun (acc : Maps × List String) (src : String) =>
+      let (ms, outs) := acc
+      let k := (src.drop 1).toString
+      if src.startsWith "r" then
+        match k.toNat?.bind (fun key => C18.get ms.sRelay .relay key [ms.sNext]) with
+        | some (m', a, _) =>
+          let ms' := { ms with sRelay := m', sNext := ms.sNext + 1 }
+          let o := match toTransport ms'.sRelay ms'.sCustom false a with
+            | some (.relay k) => s!"relay:{k}" | some (.custom k) => s!"custom:{k}"
+            | some .ip => "ip" | none => "none"
+          (ms', o :: outs)
+        | none => (ms, "bad-op" :: outs)
+      else if src.startsWith "c" then
+        match k.toNat?.bind (fun key => C18.get ms.sCustom .custom key [ms.sNext]) with
+        | some (m', a, _) =>
+          let ms' := { ms with sCustom := m', sNext := ms.sNext + 1 }
+          let o := match toTransport ms'.sRelay ms'.sCustom false a with
+            | some (.relay k) => s!"relay:{k}" | some (.custom k) => s!"custom:{k}"
+            | some .ip => "ip" | none => "none"
+          (ms', o :: outs)
+        | none => (ms, "bad-op" :: outs)
+      else (ms, "ip" :: outs)
+    let (ms', outs) := (srcs.splitOn ",").foldl step (ms, [])
+    (ms', ",".intercalate outs.reverse)
   | ["t", _, _, _] => (ms, "ok")
   | _ => (ms, "bad-op")
 
